@@ -167,6 +167,7 @@ macro_rules! scenarios {
             "chacha_block" => $f(&scen::s2_chacha_block::S2, $($arg),*),
             "hash_stream" => $f(&scen::s4_hash_stream::S4, $($arg),*),
             "mem" => $f(&scen::s5_mem::S5, $($arg),*),
+            "counters" => $f(&scen::s6_counters::S6, $($arg),*),
             "chacha_stream@hosts" => $f(&scen::s3_hosts::Hosts { inner: scen::s1_chacha_stream::S1, name: "chacha_stream@hosts" }, $($arg),*),
             "chacha_block@hosts" => $f(&scen::s3_hosts::Hosts { inner: scen::s2_chacha_block::S2, name: "chacha_block@hosts" }, $($arg),*),
             "hash_stream@hosts" => $f(&scen::s3_hosts::Hosts { inner: scen::s4_hash_stream::S4, name: "hash_stream@hosts" }, $($arg),*),
@@ -203,7 +204,7 @@ fn main() {
     hosts::install();
     scen::arena::install_fault_handler();
     let code = match argv[1].as_str() {
-        "selftest" => match selftest() {
+        "selftest" => match selftest(arg(&args, "repo", "/repo")) {
             Ok(n) => {
                 println!("{}", J::obj().set("selftest", J::str("ok")).set("vectors", J::U(n as u128)).to_string());
                 0
@@ -217,6 +218,7 @@ fn main() {
             let name = arg(&args, "scenario", "").to_string();
             scenarios!(name.as_str(), do_run, &args)
         }
+        "stream" => do_stream(&args),
         "info" => {
             let ks = scen::s5_mem::kinds();
             println!("{}", J::obj().set("mem_kinds", J::U(ks.len() as u128)).set("mem_enum_combos", J::U(scen::s5_mem::combos(&ks).len() as u128)).set("max_host_level", J::U(hosts::max_level() as u128)).to_string());
@@ -237,8 +239,100 @@ fn main() {
     std::process::exit(code);
 }
 
-fn selftest() -> Result<u32, String> {
+fn selftest(repo: &str) -> Result<u32, String> {
     let mut n = 0;
     n += refm::chacha::selftest()?;
+    n += refm::selftest_hashes(repo)?;
     Ok(n)
+}
+
+/// Cross a counter boundary for real (no hook involved in reaching it): stream patterned data through the
+/// implementation and the reference in lock-step, compare digests of clones taken around the boundary.
+fn do_stream(args: &BTreeMap<String, String>) -> i32 {
+    use scen::hashes::{new_hash, type_index, TYPES};
+    use scen::s6_counters::Ref;
+    let name = arg(args, "type", "Blake256");
+    let ty = type_index(name).expect("--type");
+    let boundary: u128 = arg(args, "boundary-bytes", "536870912").parse().expect("--boundary-bytes");
+    let seed: u64 = arg(args, "seed", "1").parse().expect("--seed");
+    let with_ref = !args.contains_key("no-ref");
+    let b = TYPES[ty].block as u128;
+    let mut rng = kit::rng::Rng::new(seed ^ kit::rng::fnv(name));
+    let mut real = new_hash(ty);
+    let mut reference = Ref::new(ty);
+    let t0 = std::time::Instant::now();
+    // stop 1..3 blocks + a partial block short of the boundary
+    let short = b * rng.range(1, 3) as u128 + rng.range(1, b as u64 - 1) as u128;
+    let mut remaining = boundary - short;
+    let chunk = 1usize << 20;
+    let mut buf = vec![0u8; chunk];
+    let mut absorbed: u128 = 0;
+    let mut checks = Vec::new();
+    let mut bad = Vec::new();
+    while remaining > 0 {
+        let n = (remaining.min(chunk as u128)) as usize;
+        // cheap deterministic pattern per chunk (content is not the point; the counter is)
+        let tag = rng.next();
+        for (i, c) in buf[..n].chunks_mut(8).enumerate() {
+            let v = (tag ^ (i as u64).wrapping_mul(0x9e37_79b9_7f4a_7c15)).to_le_bytes();
+            c.copy_from_slice(&v[..c.len()]);
+        }
+        real.update(&buf[..n]);
+        if with_ref {
+            reference.update(&buf[..n]);
+        }
+        absorbed += n as u128;
+        remaining -= n as u128;
+    }
+    // now walk across the boundary in small pieces, finalising clones on the way
+    let mut monitor_bad = 0;
+    for step in 0..8 {
+        let n = if step == 0 { 0 } else { rng.range(1, (b as u64) + 7) as usize };
+        let piece = rng.bytes(n);
+        real.update(&piece);
+        if with_ref {
+            reference.update(&piece);
+        }
+        absorbed += n as u128;
+        let d = real.clone_box().finalize_box();
+        let ok = if with_ref { reference.clone().finalize() == d } else { true };
+        // counter monitor through the (passive) accessor
+        let f = TYPES[ty].family;
+        let (blocks, buffered) = match f {
+            scen::hashes::Family::Skein => {
+                if absorbed == 0 { (0, 0) } else { let n = (absorbed - 1) / b; (n, absorbed - n * b) }
+            }
+            _ => (absorbed / b, absorbed % b),
+        };
+        let expect = match f {
+            scen::hashes::Family::Blake => blocks * b * 8,
+            scen::hashes::Family::Groestl => blocks,
+            scen::hashes::Family::Jh => absorbed,
+            scen::hashes::Family::Skein => blocks * b,
+        };
+        let _ = buffered;
+        let cnt = real.counter();
+        if cfg!(cryptocorrosion_verif) && cnt != expect {
+            monitor_bad += 1;
+        }
+        checks.push(J::obj().set("absorbed", J::U(absorbed)).set("digest_ok", J::Bool(ok)).set("counter", J::U(cnt)).set("expected_counter", J::U(expect)));
+        if !ok {
+            bad.push(absorbed);
+        }
+    }
+    let out = J::obj()
+        .set("type", J::str(name))
+        .set("boundary_bytes", J::U(boundary))
+        .set("absorbed", J::U(absorbed))
+        .set("with_reference", J::Bool(with_ref))
+        .set("checks", J::A(checks))
+        .set("digest_mismatches", J::U(bad.len() as u128))
+        .set("counter_mismatches", J::U(monitor_bad as u128))
+        .set("wall_ms", J::U(t0.elapsed().as_millis()));
+    println!("{}", out.to_string());
+    if !bad.is_empty() || monitor_bad > 0 {
+        1
+    } else {
+        0
+    }
 }
